@@ -3,3 +3,5 @@ import CssVerif.Model.Tokenizer
 import CssVerif.Gen.Productions
 import CssVerif.Props.C08
 import CssVerif.Props.C09
+import CssVerif.Props.C11
+import CssVerif.Props.C07
